@@ -93,6 +93,7 @@ def check_mi(ctx, case):
         classes = auto_classes(int(data[:cuts[1]].max()))
     else:
         classes = list(parts)
+    cap = int(np.iinfo(precision).max) if np.dtype(precision).kind in 'iu' else None
     rng_ = edges[-1] - edges[0]
     on_edge = out = amb = empty_cells = 0
     integral = traces.dtype.kind in 'iu' or bool(np.all(traces == np.round(traces)))
@@ -102,6 +103,14 @@ def check_mi(ctx, case):
             xs = [float(v) for v in traces[:, i]]
             delta = 0.0 if (integral and case['edges_kind'] == 'int') else 16 * EPS * (max(abs(edges[0]), abs(edges[-1])) + rng_)
             values, info = omia.column_mi(xs, labs, classes, edges, delta)
+            if cap is not None and cap < n:
+                # narrow counters: only histories whose individual (bin, class) counts fit are in the domain (their totals may exceed the dtype)
+                import collections
+                cnt = collections.Counter((omia.bin_of(x, edges), v) for x, v in zip(xs, labs) if v in set(classes))
+                cnt.pop(None, None)
+                if any(b is not None and c > cap for (b, _v), c in cnt.items()):
+                    ctx.count('skipped_cell_count_exceeds_counter_dtype')
+                    continue
             on_edge += info['on_edge']
             out += info['out_of_range']
             amb += info['ambiguous']
@@ -148,6 +157,8 @@ def check_edges(ctx, case):
     """refusal rule: ``expect`` = 'accept' | 'refuse'"""
     e = case['edges']
     arg = list(e) if case['as_list'] else np.array(e, dtype='float64')
+    if case.get('as_range'):
+        arg = range(*[int(v) for v in case['as_range']])
     how = case['how']
     try:
         if how == 'ctor':
@@ -167,7 +178,7 @@ def check_edges(ctx, case):
             raise Violation('MIA refused uniform bin_edges (%s): %s -> %s' % (case['why'], [float(v) for v in e][:8], raised), case)
         if obj.bins_number != len(e) - 1:
             raise Violation('MIA: bins_number %s after configuring %d edges' % (obj.bins_number, len(e)), case)
-    ctx.case(case, case['expect'] == 'refuse' and case['why'] != 'unsorted', ['expect:' + case['expect'], 'why:' + case['why'], 'how:' + how])
+    ctx.case(case, case['expect'] == 'refuse' and case['why'] != 'unsorted', ['expect:' + case['expect'], 'why:' + case['why'], 'how:' + how] + (['given_as_range'] if case.get('as_range') else []))
 
 
 def replay(ctx, case):
@@ -189,6 +200,11 @@ def mi_cases(draw, precision, tdtypes):
     n = draw(st.one_of(st.integers(1, 20), st.integers(1, 300)))
     s = draw(st.integers(1, 5))
     W = draw(st.integers(1, 3))
+    if precision == 'uint8' and draw(st.booleans()):
+        n = draw(st.integers(256, 300))          # more traces than a counter can hold in total (each (bin, class) cell still fits)
+        nb = draw(st.sampled_from([1, 1, 2, 3]))
+    if precision == 'uint16' and draw(st.integers(0, 24)) == 0:
+        n, s, W, nb = 65536 + draw(st.integers(0, 40)), 1, 1, draw(st.sampled_from([1, 2]))
     edges_float = True
     form = 'float_array'
     if ekind == 'int':
@@ -371,7 +387,19 @@ def edge_cases(draw):
     elif why == 'repeated':
         k = draw(st.integers(0, nb - 1))
         e[k + 1] = e[k]
-    return {'kind': 'edges', 'edges': e, 'why': why, 'expect': expect, 'as_list': draw(st.booleans()), 'how': draw(st.sampled_from(['ctor', 'setter']))}
+    as_range = None
+    if draw(st.integers(0, 5)) == 0:
+        # edges given as a range object: increasing ranges are uniform edge sets, decreasing or empty ones must be refused like any unsorted list
+        a_, st_, nb_ = draw(st.integers(-50, 50)), draw(st.integers(1, 40)), draw(st.integers(1, 20))
+        if draw(st.booleans()):
+            as_range = [a_, a_ + st_ * nb_ + 1, st_]
+            e = list(range(*as_range))
+            why, expect = 'uniform', 'accept'
+        else:
+            as_range = [a_ + st_ * nb_, a_ - 1, -st_]
+            e = list(range(*as_range))
+            why, expect = 'unsorted', 'refuse'
+    return {'kind': 'edges', 'edges': e, 'why': why, 'expect': expect, 'as_list': draw(st.booleans()), 'how': draw(st.sampled_from(['ctor', 'setter'])), 'as_range': as_range}
 
 
 def unit_mi(ctx, precision, tdtypes, n):
@@ -382,7 +410,7 @@ def unit_edges(ctx, n):
     hyp.run(ctx, edge_cases(), check_edges, n)
 
 
-GROUPS = [('uint32', ['uint8', 'float32']), ('uint32', ['int16', 'float64']), ('float64', ['int8', 'float32']), ('float32', ['uint16', 'float64']),
+GROUPS = [('uint8', ['uint8', 'float32']), ('uint16', ['int16', 'float64']), ('uint32', ['uint8', 'float32']), ('uint32', ['int16', 'float64']), ('float64', ['int8', 'float32']), ('float32', ['uint16', 'float64']),
           ('uint32', ['int32', 'float64']), ('int64', ['uint8', 'float32']), ('uint32', ['int8', 'float64']), ('float64', ['int16', 'float32'])]
 
 
@@ -391,7 +419,7 @@ def units(tier):
     us = [{'name': 'edge-lists-%d' % i, 'fn': 'unit_edges', 'kwargs': {'n': 2500 if q else 30000}} for i in range(2)]
     for rep in range(2):
         for gi, (precision, tdts) in enumerate(GROUPS):
-            if rep == 1 and gi >= 6:
+            if rep == 1 and (gi >= 8 or gi < 2):
                 continue
             us.append({'name': 'mi-%s-%s-%d' % (precision, '+'.join(tdts), rep), 'fn': 'unit_mi',
                        'kwargs': {'precision': precision, 'tdtypes': tdts, 'n': 800 if q else 10000}})
